@@ -457,16 +457,16 @@ HiOf(T) ==
   CASE T = "int8"   -> SMake(FALSE, NFromInt(IF Mutant = "narrowOffByOne" THEN 128 ELSE 127))
     [] T = "int16"  -> SMake(FALSE, NFromInt(32767))
     [] T \in {"int32", "named32"} -> SMake(FALSE, NFromInt(2147483647))
-    [] T \in {"int64", "int"} -> SMake(FALSE, <<5807, 7547, 3685, 3720, 922>>)       \* 9223372036854775807
+    [] T \in {"int64", "int"} -> SMake(FALSE, <<5807, 5477, 368, 3372, 922>>)       \* 9223372036854775807
     [] T = "uint8"  -> SMake(FALSE, NFromInt(255))
     [] T = "uint16" -> SMake(FALSE, NFromInt(65535))
     [] T = "uint32" -> SMake(FALSE, <<7295, 9496, 42>>)                               \* 4294967295
-    [] T \in {"uint64", "uint", "uintptr"} -> SMake(FALSE, <<1615, 955, 7370, 6744, 1844>>)  \* 18446744073709551615
+    [] T \in {"uint64", "uint", "uintptr"} -> SMake(FALSE, <<1615, 955, 737, 6744, 1844>>)  \* 18446744073709551615
 LoOf(T) ==
   CASE T = "int8"   -> SMake(TRUE, NFromInt(128))
     [] T = "int16"  -> SMake(TRUE, NFromInt(32768))
     [] T \in {"int32", "named32"} -> SMake(TRUE, <<3648, 4748, 21>>)
-    [] T \in {"int64", "int"} -> SMake(TRUE, <<5808, 7547, 3685, 3720, 922>>)
+    [] T \in {"int64", "int"} -> SMake(TRUE, <<5808, 5477, 368, 3372, 922>>)
     [] OTHER -> SMake(FALSE, <<>>)
 
 (* v : signed BigNum [neg, m] *)
